@@ -718,12 +718,32 @@ func (w *walker) clearException(sc *opScope, lt string) bool {
 				if bo.Op == token.NEQ {
 					zero = b.Succs[1]
 				}
-				if len(zero.Instrs) != 1 {
+				// the empty branch returns at once (a function with a deferred unlock runs
+				// its - still empty - defer list first)
+				zi := zero.Instrs
+				if len(zi) == 2 {
+					if _, ok := zi[0].(*ssa.RunDefers); ok {
+						zi = zi[1:]
+					}
+				}
+				if len(zi) != 1 {
 					okShape = false
-				} else if r, ok := zero.Instrs[0].(*ssa.Return); !ok || len(r.Results) != 0 {
+				} else if r, ok := zi[0].(*ssa.Return); !ok || len(r.Results) != 0 {
 					okShape = false
 				}
-			case *ssa.Go, *ssa.Defer, *ssa.Send:
+			case *ssa.Defer:
+				// only the deferred release of the lock
+				callee := core.Canon(x.Call.StaticCallee())
+				okD := false
+				if callee != nil {
+					if _, m, ok := syncRecvName(callee); ok && (m == "Unlock" || m == "RUnlock") {
+						okD = true
+					}
+				}
+				if !okD {
+					okShape = false
+				}
+			case *ssa.Go, *ssa.Send:
 				okShape = false
 			}
 		}
